@@ -5,12 +5,43 @@ import json, subprocess, sys
 EXACT = ("generated-input search (proptest-driven raw vectors, shrinkable, seeded) against an exact oracle: the same generic "
          "cgmath source is instantiated with harness scalars Q (checked i128 rationals) and Fp (p=2^61-1) and compared with `==` "
          "against array-based reference implementations")
-CLAIMED = {
+EX = "Trusted: the harness' reference implementations (refs.rs), the Q/Fp arithmetic (q.rs), and rustc monomorphising the same generic source for f32/f64 as for Q/Fp. "
+ALL = {
  "C01": dict(
    text="Exploration. Every clause of C01 is a polynomial identity; it is evaluated exactly (no tolerance) on generated dense matrices over Q and over the prime field Fp (per-case miss probability <= degree/2^61, Schwartz-Zippel) for n=2,3,4 and all four by-value/by-reference operand forms, against a textbook triple-loop reference. Not a proof: sampled, but an index/sign/term slip is a hard inequality on a generic input.",
-   note="Trusted: the harness' reference implementations (refs.rs), Q/Fp arithmetic, rustc's monomorphisation giving the same formula for f32/f64 as for Q/Fp. Assumes no division by a zero scalar.",
+   note=EX+"Assumes no division by a zero scalar.",
    technique="property-based testing: exact-field differential oracle (Q, Fp) + algebraic laws", design="6/C01"),
+ "C02": dict(
+   text="Exploration. determinant/invert/transpose/swap laws evaluated exactly over Q and Fp on generic matrices and on *constructed* singular (rank n-1 by column and by row combination), low-rank and tiny-determinant matrices; invert()==None is compared with the Leibniz determinant being exactly 0; swap/replace_col index pairs are enumerated completely per case. Sampled search, not a proof; exact arithmetic means no tolerance can hide or invent a failure.",
+   note=EX+"ulps-equality degenerates to equality in Q/Fp. Memory safety of the unchecked reads is only covered by the ASan fuzz build in the thorough tier.",
+   technique="property-based testing: exact-field reference model (Leibniz determinant), constructed singular classes, exhaustive index enumeration", design="6/C02"),
+ "C03": dict(
+   text="Exploration. Component-wise operators, the ElementWise families (vector and scalar right-hand sides, value and assign forms), dot/cross/perp-dot identities checked with == over Q, Fp and overflow-free i64/i32 operands for dimensions 1-4.",
+   note=EX+"Integer operands are constructed inside the no-overflow range; divisors non-zero.",
+   technique="property-based testing: per-component reference + algebraic identities over exact fields and integers", design="6/C03"),
+ "C04": dict(
+   text="Exploration. Hamilton product vs an independent 4x4 left-multiplication-matrix reference, ring laws, conjugate/norm/inverse laws and the rotation formula q*v for arbitrary and *exactly unit* (p^2/|p|^2) quaternions, all with == over Q and Fp.",
+   note=EX,
+   technique="property-based testing: exact-field differential oracle + algebraic laws", design="6/C04"),
+ "C05": dict(
+   text="Exploration. The four rotation representations are compared exactly over Q/Fp on exactly unit quaternions (action on a vector, element tables, orthonormality, det=+1, composition); matrix->quaternion is decided exactly in Q (all internal square roots are rational) and within 1e-12 in f64, with all four branches required to be reached and the trace=0 hand-over targeted.",
+   note=EX+"Branch classes are recomputed from the input with the documented conditions.",
+   technique="property-based testing: exact round-trip + differential oracle with branch-coverage classes", design="6/C05"),
+ "C06": dict(
+   text="Exploration. from_axis_angle / from_angle_x,y,z / 2-D from_angle for all six representations against Rodrigues' formula: exactly in Q using named angles with rational (sin,cos) and half-angle pairs and rational unit axes, and within 1e-12 in f64 with libm sin/cos for Rad and Deg inputs; angle additivity, inverse and rotate_point laws.",
+   note=EX+"Non-unit axes are outside the statement. Named-angle registry: Q::sin_cos looks the angle's name up.",
+   technique="property-based testing: exact rational-trigonometry oracle (Rodrigues) + f64 libm differential", design="6/C06"),
+ "C07": dict(
+   text="Exploration. Euler->rotation for Matrix3/Matrix4/Basis3/Quaternion against Rx*Ry*Rz exactly in Q (named angles) and within 1e-12 in f64 (Rad and Deg); quaternion->Euler on f64 unit quaternions with generators aimed at the gimbal cone and its boundary sin y = +-0.998(1+-delta), checking ranges, exact rebuild outside the cone, x=0/y=+-pi/2/0.13 bound inside.",
+   note=EX+"The 0.998/0.13 constants are f64-calibrated; a 1e-9 guard band accepts either obligation on the boundary.",
+   technique="property-based testing: exact composition oracle + f64 round-trip with boundary-targeted generators", design="6/C07"),
+ "C12": dict(
+   text="Exploration. Affine-space laws, component-wise operators and ElementWise families of Point1-3, midpoint, centroid (1-8 points) and homogeneous coordinates, with == over Q, Fp and i64.",
+   note=EX,
+   technique="property-based testing: per-component reference + affine laws over exact fields", design="6/C12"),
 }
+BUILT = ["C01","C02","C03","C04","C05","C06","C07","C12"]
+CLAIMED = {k: v for k, v in ALL.items() if k in BUILT}
 PENDING = {}
 
 def main():
